@@ -1,8 +1,10 @@
 """C05 — every storage backend behaves like one dictionary (structural part).
 
 Decides: keying (R1); forget scope terminated and mirrored in the cache (R2); queries are
-effect-free (R3); cache replace-on-put / write-through (R4); path-scheme writer/reader
-agreement (R5).  Does not decide: equivalence with a model dictionary over histories.
+effect-free (R3); cache replace-on-put / write-through, an entry answers and is filled only for
+the memento it holds (R4); path-scheme writer/reader agreement (R5); the cache lets go of a scope
+before the store starts to forget it (R2); an Iterable parameter is gone through once (R10).
+Does not decide: equivalence with a model dictionary over histories.
 """
 import ast
 import re
@@ -209,6 +211,17 @@ def _operation_sites(fa: FA, name):
         if isinstance(f, ast.Attribute) and f.attr == name:
             out.append((c, f.value, _splice(fa, c.args, c), list(c.keywords)))
             continue
+        if isinstance(f, ast.Attribute) and f.attr == "callback" and c.args and isinstance(f.value, ast.Name) and not isinstance(c.args[0], ast.Starred):
+            # `stack.callback(R.name, args)` on the ExitStack of an enclosing with block: R.name(args) runs when the block is
+            # left, however it is left -- once registered it is certain to be applied
+            tgt = safe_expand(fa, c.args[0], c) if isinstance(c.args[0], ast.Name) else c.args[0]
+            ids_ = fa.nodes(c)
+            ds_ = fa.df.reaching(ids_[0], f.value.id) if ids_ else []
+            if isinstance(tgt, ast.Attribute) and tgt.attr == name and ds_ and all(
+                    d.kind == "with" and isinstance(d.value, ast.Call) and (A.dotted(d.value.func) or "").split(".")[-1] == "ExitStack"
+                    and d.stmt is not None and fa.inside(c, d.stmt) for d in ds_):
+                out.append((c, tgt.value, _splice(fa, c.args[1:], c), list(c.keywords)))
+                continue
         fx = safe_expand(fa, f, c) if isinstance(f, ast.Name) else f
         if isinstance(fx, ast.Attribute) and fx.attr == name:
             out.append((c, fx.value, _splice(fa, c.args, c), list(c.keywords)))
@@ -234,6 +247,37 @@ def _implied(fa: FA, t, n, positive, excuse) -> bool:
     except AnalysisError:
         return False
     return bool(excuse(txt, pol))
+
+
+def _through_properties(ck, cls, excuse):
+    """`excuse` extended to literals that name a call-free single-return property of the class (`self._writable` returning
+    `not self.read_only`, `self._cached` returning `self._memory_cache is not None`): the literal is excused when what the
+    property returns, taken with the literal's polarity, implies an excused literal"""
+    def leaf(e, positive):
+        if isinstance(e, ast.UnaryOp) and isinstance(e.op, ast.Not):
+            return leaf(e.operand, not positive)
+        if isinstance(e, ast.BoolOp):
+            conj = (isinstance(e.op, ast.And) and positive) or (isinstance(e.op, ast.Or) and not positive)
+            parts = [leaf(v, positive) for v in e.values]
+            return any(parts) if conj else all(parts)
+        if isinstance(e, ast.Compare) and len(e.ops) == 1 and isinstance(e.ops[0], (ast.IsNot, ast.NotEq, ast.NotIn)):
+            pos = {ast.IsNot: ast.Is, ast.NotEq: ast.Eq, ast.NotIn: ast.In}[type(e.ops[0])]
+            return leaf(ast.Compare(left=e.left, ops=[pos()], comparators=e.comparators), not positive)
+        if isinstance(e, ast.Call) and isinstance(e.func, ast.Name) and e.func.id == "bool" and len(e.args) == 1 and not e.keywords:
+            return leaf(e.args[0], positive)
+        return bool(excuse(A.norm(e), positive))
+
+    def wrapped(t, p):
+        if excuse(t, p):
+            return True
+        if cls is None or not re.fullmatch(r"self\.\w+", t):
+            return False
+        e = ast.parse(t, mode="eval").body
+        x = _inline_properties(ck, cls, e)
+        if A.norm(x) == t or any(isinstance(n, ast.Call) and not (isinstance(n.func, ast.Name) and n.func.id == "bool") for n in ast.walk(x)):
+            return False
+        return leaf(x, p)
+    return wrapped
 
 
 def _inline_properties(ck, cls, e, depth=0):
@@ -289,8 +333,12 @@ def _every_iteration(fa: FA, lp, ids) -> bool:
     """every iteration of the loop `lp` passes one of the CFG nodes `ids`, and the loop visits every element (no break / return)"""
     if not ids or any(isinstance(n, (ast.Break, ast.Return)) for st in lp.body for n in ast.walk(st)):
         return False
+    # an iteration may be skipped where the element itself is found to be missing (`if layer is None: continue`, `if layer:`):
+    # the operation is then still applied to every element that exists
+    var = lp.target.id if isinstance(lp.target, ast.Name) else None
+    missing = branch_filter(fa, lambda t, p: var is not None and ((t == var and not p) or (t == var + " is None" and p))) if var else None
     for h in fa.nodes(lp):
-        r = fa.cfg.reach([h], removed=ids, edge_ok=lambda s_, d_, l_, h=h: not (s_ == h and l_ == "F"), include_start=False)
+        r = fa.cfg.reach([h], removed=ids, edge_ok=lambda s_, d_, l_, h=h: not (s_ == h and l_ == "F") and (missing is None or missing(s_, d_, l_)), include_start=False)
         for i in r:
             nd = fa.cfg.node(i)
             if i == h or i == fa.cfg.exit or (nd.ast is not None and not fa.inside(nd.ast, lp)):
@@ -397,6 +445,48 @@ def _layer_application_nodes(ck, fa: FA, name, field, excuse):
     return nodes, sites
 
 
+def _check_cache_let_go_first(ck, R, fa0: FA, name):
+    """The store's forget can fail half-way (it deletes several files; a recursive delete reports an error after it has
+    removed the tree).  Whatever happens to it, the cache must not keep answering for what the store has let go of: when
+    the store's `name` is started, the cache's `name` has already been applied (whenever a cache exists), or it is applied
+    on every way on from a failure of the store's (a finally block / a handler that re-raises after it).  Decided on the
+    CFG with exception edges out of every call."""
+    fx = FA(ck, fa0.fi, exc_mode="all")
+    mdx, _m = _layer_application_nodes(ck, fx, name, "_metadata_source", None)
+    no_cache = _through_properties(ck, fx.fi.cls, _no_cache)
+    ccx, _c = _layer_application_nodes(ck, fx, name, "_memory_cache", no_cache)
+    if not mdx or not ccx:
+        return      # reported by the mirror obligations
+    nocache = branch_filter(fx, no_cache)
+    cfg = fx.cfg
+    bad = None
+    for m in mdx:
+        if m in ccx:
+            # one loop over the layers applies the operation to both: the order is that of the sequence it runs through
+            nd = cfg.node(m).ast
+            lp = nd if isinstance(nd, ast.For) else fx.enclosing(nd, ast.For) if nd is not None else None
+            seq = safe_expand(fx, lp.iter, lp) if lp is not None else None
+            if isinstance(seq, (ast.Tuple, ast.List)) and not any(isinstance(e, ast.Starred) for e in seq.elts):
+                ic = [i for i, e in enumerate(seq.elts) if _layer_value(ck, fx, e, lp, "_memory_cache", no_cache)]
+                im = [i for i, e in enumerate(seq.elts) if _layer_value(ck, fx, e, lp, "_metadata_source", None)]
+                if ic and im and min(im) < min(ic):
+                    bad = m
+            continue
+        before = cfg.must_pass(ccx, m, edge_ok=nocache)
+        # what follows a failure of the store's operation: only the exception edges out of it, then the normal flow
+        after_failure = both(nocache, lambda s, d, l, m=m: (l == "exc") == (s == m))
+        r = cfg.reach([m], removed=ccx, edge_ok=after_failure, include_start=False)
+        if not before and (cfg.raise_exit in r or cfg.exit in r):
+            bad = m
+    ok = bad is None
+    ck.ob(R, fa0.key(None, "cache-before-store"), ok,
+          "the cache lets go of the scope before the store starts to (or on every way on from a failure of the store)" if ok else
+          "%s starts self._metadata_source.%s before self._memory_cache.%s was applied and nothing applies it when the store's %s fails: a store "
+          "that fails after it has removed the memento leaves the cache claiming the call is memoized and serving its value, while listings "
+          "and other processes say it is gone" % (name, name, name, name),
+          fa0.where(cfg.node(bad).ast if bad is not None else None))
+
+
 def _forget_by_scan(ck, R, cm, ff, sw, sep):
     own = [p_ for p_ in ff.fi.params if p_ != "self"]
     slots = set()
@@ -412,52 +502,158 @@ def _forget_by_scan(ck, R, cm, ff, sw, sep):
               ff.where(at))
         # which table do the tested keys come from: the iterable that binds the tested variable (comprehension or loop)
         if it is not None:
-            for a in A.attrs_in(safe_expand(ff, it, at)):
-                slots.add(a)
+            todo, depth = [it], 0
+            while todo and depth < 3:
+                nxt = []
+                for e_ in todo:
+                    for a in A.attrs_in(safe_expand(ff, e_, at)):
+                        slots.add(a)
+                    # ... or from a variable that itself runs over the tables (`for table in (self.refs, self.cache) for key in table`)
+                    for nm in [x for x in ast.walk(e_) if isinstance(x, ast.Name) and isinstance(x.ctx, ast.Load)]:
+                        b_ = _binder_iter(ff, nm)
+                        if b_ is not None and b_ is not e_:
+                            nxt.append(b_)
+                todo, depth = nxt, depth + 1
     # both refs and cache are filtered
     need = {cm.map} | ({cm.refs} if cm.refs else set())
+    if slots and not need <= slots:
+        # a table that is not scanned may be selected from a per-function index instead (scan the weak table, index the
+        # resident map): then that index is held to the index clauses for the tables it stands for
+        try:
+            _forget_by_index(ck, R, cm, ff, only=sorted(need - slots))
+            slots |= need
+        except AnalysisError:
+            pass
     ck.ob(R, ff.key(None, "slots"), need <= slots, "forget_function filters %s" % sorted(need) if need <= slots else
           "forget_function does not filter %s" % sorted(need - slots), ff.where())
 
 
-def _forget_by_index(ck, R, cm, ff):
-    """forget_function selects its keys from a per-function index (a dict slot of the cache other than
-    the resident map) instead of scanning.  The selection is then only as complete as the index:
-    every site that stores a key into the resident map or the weak-reference table must enter that
-    key into the index in the same method, and the index is keyed by the function's qualified name."""
-    idx = None
+def _of_slot(fa: FA, e, slot, at=None) -> bool:
+    """does the container expression `e` denote (something taken out of) self.<slot>: named directly, inside a call chain
+    (`self.idx.setdefault(q, set())`), or through a temporary"""
+    if e is None:
+        return False
+    if any(self_attr(x, slot) for x in ast.walk(e)):
+        return True
+    try:
+        return bool(fa.nodes(at if at is not None else e)) and ("attr:self." + slot) in fa.deps(e)
+    except AnalysisError:
+        return False
+
+
+def _key_events(fa: FA, slot, ktxt, kinds):
+    """CFG nodes of `fa` at which the key whose expanded text is `ktxt` is entered into (`kinds`='add') / taken out of
+    (`kinds`='remove') the table self.<slot> or an inner collection taken out of it"""
+    names = ("add", "append", "__setitem__") if kinds == "add" else ("pop", "discard", "remove", "__delitem__")
+    out = []
+    for c in fa.calls():
+        if A.call_attr(c) in names and c.args and fa.nodes(c) and _of_slot(fa, A.call_recv(c), slot, c) and _xt(fa, c.args[0], c) == ktxt and fa.unconditional(c):
+            out += fa.nodes(c)
+    if kinds == "add":
+        for st in fa.stmts(ast.Assign):
+            if any(isinstance(t, ast.Subscript) and _of_slot(fa, t.value, slot, st) and _xt(fa, t.slice, st) == ktxt for t in st.targets):
+                out += fa.nodes(st)
+    else:
+        for st in fa.stmts(ast.Delete):
+            if any(isinstance(t, ast.Subscript) and _of_slot(fa, t.value, slot, st) and _xt(fa, t.slice, st) == ktxt for t in st.targets):
+                out += fa.nodes(st)
+    return out
+
+
+def _site_covered(ck, cm, m, site, key, slot, kinds, absent_ok, depth=0):
+    """Is the event "key `key` is entered into / taken out of self.<slot>" on every path of method `m` through `site` --
+    or, for a private helper whose key is a parameter, on every path through each of its call sites in the class (two
+    levels)?  With `absent_ok` a way may miss the event on a branch edge that says the key is not in that table.
+    -> (covered, (method, node) of the uncovered site)"""
+    fa = FA(ck, m)
+    ids = fa.nodes(site)
+    if not ids:
+        return True, None
+    ktxt = _xt(fa, key, site)
+    ev = _key_events(fa, slot, ktxt, kinds)
+    edge_ok = None
+    if absent_ok:
+        edge_ok = branch_filter(fa, lambda t, p: (not p) and t == "%s in self.%s" % (ktxt, slot))
+    if every_path_through(fa, ids, ev, edge_ok=edge_ok):
+        return True, None
+    params = [p_ for p_ in m.params if p_ != "self"]
+    if depth >= 2 or ktxt not in params or not m.name.startswith("_"):
+        return False, (fa, site)
+    callers = [(o, c) for o in cm.cls.methods.values() if o is not m for c in A.body_calls(o.node) if cm.is_self_call(c, m)]
+    if not callers:
+        return False, (fa, site)
+    for (o, c) in callers:
+        arg = _bind(c, m.params).get(ktxt)
+        if arg is None:
+            return False, (FA(ck, o), c)
+        ok, w = _site_covered(ck, cm, o, c, arg, slot, kinds, absent_ok, depth + 1)
+        if not ok:
+            return False, w
+    return True, None
+
+
+def _forget_by_index(ck, R, cm, ff, only=None):
+    """forget_function selects its keys from a per-function index (a dict slot of the cache other than the resident map)
+    instead of scanning.  The selection is then only as complete as the index: at all times the index holds every key of
+    the resident map AND of the weak-reference table.  Decided as two clauses over every method of the cache: (1) wherever
+    a key is stored into one of the two tables it is entered into the index on every path through the store (in the method,
+    or around every call of the private helper that stores); (2) wherever a key is taken out of the index it is taken out
+    of both tables on every path through that site (or the way there says the table does not hold it)."""
+    own = [p_ for p_ in ff.fi.params if p_ != "self"]
+    cand = [f for f in getattr(cm, "aux_maps", [])]
+    idx, sel_loop = None, None
     for loop in ff.stmts(ast.For):
-        for x in ast.walk(loop.iter):
-            f = self_attr(x)
-            if f and f not in (cm.map, cm.refs, cm.queue, cm.counter, cm.budget) and f not in cm.cls.methods:
-                idx = f
+        if not ff.nodes(loop):
+            continue
+        fields = {self_attr(x) for x in ast.walk(safe_expand(ff, loop.iter, loop)) if self_attr(x)}
+        try:
+            fields |= {d[len("attr:self."):] for d in ff.deps(loop.iter) if d.startswith("attr:self.")}
+        except AnalysisError:
+            pass
+        for f in sorted(fields):
+            if f not in (cm.map, cm.refs, cm.queue, cm.counter, cm.budget) and f not in cm.cls.methods and (not cand or f in cand):
+                idx, sel_loop = f, loop
     if idx is None:
         raise AnalysisError("MemoryCache.forget_function selects its keys neither by a startswith() scan nor from an index slot (unsupported idiom)")
-    okq = any("qualified_name" in A.norm(l.iter) and "fn_reference" in A.names_in(l.iter) for l in ff.stmts(ast.For))
+    sel = _xt(ff, sel_loop.iter, sel_loop)
+    okq = bool(own) and (own[0] + ".qualified_name") in sel
     ck.ob(R, ff.key(None, "index-keyed-by-qualified-name"), okq, "the index is looked up by fn_reference.qualified_name" if okq else
           "the per-function index is not looked up by the function's qualified name", ff.where())
-    slots = [cm.map] + ([cm.refs] if cm.refs else [])
+    slots = list(only) if only else [cm.map] + ([cm.refs] if cm.refs else [])
     for name, m in cm.cls.methods.items():
+        if name == "__init__":
+            continue
         fa = FA(ck, m)
-        adds = [c for c in fa.calls() if A.call_attr(c) in ("add", "append") and idx in A.attrs_in(A.call_recv(c))]
+        # (1) a key that enters a table enters the index
         for st in fa.stmts(ast.Assign):
             for t in st.targets:
-                if isinstance(t, ast.Subscript) and self_attr(t.value) in slots:
-                    k = A.norm(t.slice)
-                    hit = [c for c in adds if c.args and A.norm(c.args[0]) == k]
-                    ok = bool(hit) and all(fa.cfg.must_pass(fa.nodes_all(hit), fa.cfg.exit, start=i) or fa.cfg.must_pass(fa.nodes_all(hit), i) for i in fa.nodes(st))
-                    ck.ob(R, fa.key(st, "indexed:" + self_attr(t.value)), ok,
-                          "the key stored into %s is entered into the index %s" % (self_attr(t.value), idx) if ok else
-                          "`%s` stores a key that is not entered into the per-function index `%s`: forget_function selects from that index only, so this "
-                          "entry survives forgetting its function and the forgotten result is served again" % (A.short(st, 50), idx), fa.where(st))
-    # the loop removes from every slot
+                if isinstance(t, ast.Subscript) and self_attr(t.value) in slots and fa.nodes(st):
+                    sl = self_attr(t.value)
+                    ok, w = _site_covered(ck, cm, m, st, t.slice, idx, "add", False)
+                    (wf, wn) = w if w is not None else (fa, st)
+                    ck.ob(R, fa.key(st, "indexed:" + sl), ok,
+                          "the key stored into %s is entered into the index %s" % (sl, idx) if ok else
+                          "`%s` stores a key into self.%s that is not entered into the per-function index `%s` on every path (%s): forget_function selects "
+                          "from that index only, so this entry survives forgetting its function -- is_memoized keeps answering True and the forgotten "
+                          "result is served again" % (A.short(st, 50), sl, idx, wf.fi.name), wf.where(wn))
+        # (2) a key that leaves the index has left both tables
+        rems = [c for c in fa.calls() if A.call_attr(c) in ("discard", "remove", "pop") and c.args and fa.nodes(c) and _of_slot(fa, A.call_recv(c), idx, c)
+                and not self_attr(A.call_recv(c), idx)]
+        for c in rems:
+            for sl in slots:
+                ok, w = _site_covered(ck, cm, m, c, c.args[0], sl, "remove", True)
+                (wf, wn) = w if w is not None else (fa, c)
+                ck.ob(R, fa.key(c, "unindexed-only-when-gone:" + sl), ok,
+                      "a key leaves the index %s only when self.%s has let go of it" % (idx, sl) if ok else
+                      "`%s` takes a key out of the per-function index `%s` while self.%s may still hold it (%s): forget_function selects from the index "
+                      "only, so that entry survives forgetting its function and the forgotten result is answered for again"
+                      % (A.short(c, 50), idx, sl, wf.fi.name), wf.where(wn))
+    # the loop removes the selected keys from every slot
     for sl in slots:
         if sl == cm.map:
-            okr = bool([c for c in ff.calls(cm.evict.name) if cm.is_self_call(c, cm.evict)])
+            okr = bool([c for c in ff.calls(cm.evict.name) if cm.is_self_call(c, cm.evict)]) or bool(_table_removal_nodes(ff, sl))
         else:
-            okr = any((isinstance(n, ast.Call) and A.call_attr(n) in ("pop",) and self_attr(A.call_recv(n)) == sl)
-                      or (isinstance(n, ast.Delete) and any(isinstance(t, ast.Subscript) and self_attr(t.value) == sl for t in n.targets))
-                      for n in A.walk_body(ff.node))
+            okr = bool(_table_removal_nodes(ff, sl))
         ck.ob(R, ff.key(None, "slots:" + sl), okr, "forget_function removes the selected keys from %s" % sl if okr else
               "forget_function does not remove the selected keys from %s" % sl, ff.where())
 
@@ -502,6 +698,125 @@ def check_cache_reads_own_key(ck, cm: CacheModel, R):
               "the value cached for another call (e.g. one that wrote a different result under the same override key)" % ([A.norm(k) for k in foreign] or ["no cache slot"])[0],
               fa.where(r))
     ck.need(n >= 1, "MemoryCache.read_result returns no value")
+    # ... and, the cache being keyed by CALL, an entry answers only for the memento it holds: a memento of the same call
+    # obtained before the call was memoized again has another content key, and its bytes are still in the store
+    for r in fa.returns():
+        for (v_, at_) in (value_sources(fa, r) if r.value is not None else []):
+            try:
+                txt = fa.xnorm(v_, at_)
+            except AnalysisError:
+                continue
+            if not (txt.endswith(".value") and ("self." + cm.map) in txt):
+                continue
+            ok = _reached_only_holding(ck, cm, fa, at_, mem, "")
+            ck.ob(R, fa.key(r, "serves-asked-memento"), ok,
+                  "an entry's value is served only when the entry's memento has the content key of the memento asked about" if ok else
+                  "read_result returns the value of the call's cache entry without having established that the entry's memento is the one asked "
+                  "about (entry.memento.content_key == %s.content_key): the cache is keyed by call, so a memento obtained before the call was "
+                  "memoized again is answered with the LATER result instead of the bytes it names" % mem, fa.where(r))
+
+
+def _holds_same_memento(ck, cm, e, positive, mem, depth=0) -> bool:
+    """Does `e` evaluating to `positive` establish that the cache entry of `mem`'s own call holds a memento with the content
+    key of `mem`?  `E.memento.content_key == mem.content_key` with E read from the resident map under mem's own cache key
+    (either operand order, `!=` taken false, a conjunct of `and`, behind `not`), or a call of a method of the cache whose
+    single return value establishes it for the argument it is given (`self.holds(mem)`, whatever it is called)."""
+    import copy
+    if isinstance(e, ast.UnaryOp) and isinstance(e.op, ast.Not):
+        return _holds_same_memento(ck, cm, e.operand, not positive, mem, depth)
+    if isinstance(e, ast.BoolOp):
+        conj = (isinstance(e.op, ast.And) and positive) or (isinstance(e.op, ast.Or) and not positive)
+        parts = [_holds_same_memento(ck, cm, v, positive, mem, depth) for v in e.values]
+        return any(parts) if conj else all(parts)
+    if isinstance(e, ast.Compare) and len(e.ops) == 1 and isinstance(e.ops[0], (ast.Eq, ast.NotEq)):
+        if isinstance(e.ops[0], ast.NotEq) == positive:
+            return False
+        own = _cache_key_canon(ck, cm, ast.parse("self._cache_key_for_memento(%s)" % mem, mode="eval").body)
+        for (a, b) in ((e.left, e.comparators[0]), (e.comparators[0], e.left)):
+            if A.norm(b) != mem + ".content_key":
+                continue
+            if not (isinstance(a, ast.Attribute) and a.attr == "content_key" and isinstance(a.value, ast.Attribute) and a.value.attr == "memento"):
+                continue
+            x = a.value.value
+            key = None
+            if isinstance(x, ast.Subscript) and self_attr(x.value, cm.map):
+                key = x.slice
+            elif isinstance(x, ast.Call) and A.call_attr(x) == "get" and self_attr(A.call_recv(x), cm.map) and x.args:
+                key = x.args[0]
+            if key is not None and _cache_key_canon(ck, cm, key) == own:
+                return True
+        return False
+    if isinstance(e, ast.Call) and positive and depth < 2 and isinstance(e.func, ast.Attribute) and isinstance(e.func.value, ast.Name) \
+            and e.func.value.id == "self" and e.func.attr in cm.cls.methods:
+        m = cm.cls.methods[e.func.attr]
+        if any(isinstance(n, (ast.Yield, ast.YieldFrom)) for n in A.walk_body(m.node)):
+            return False
+        bound = _bind(e, m.params)
+        prm = [p_ for p_ in m.params if p_ != "self"]
+        hit = [p_ for p_ in prm if p_ in bound and A.norm(bound[p_]) == mem]
+        if len(hit) != 1:
+            return False
+        fm = FA(ck, m)
+        rets = [r for r in fm.returns() if fm.nodes(r)]
+        if not rets:
+            return False
+        # the call is true only where a return hands out something truthy: each such return either returns a value that
+        # establishes the fact, or is reached only on ways that have established it (guard-clause form)
+        for r in rets:
+            if r.value is None or (isinstance(r.value, ast.Constant) and not r.value.value):
+                continue
+            try:
+                body = fm.expand(r.value)
+            except AnalysisError:
+                return False
+            if _holds_same_memento(ck, cm, copy.deepcopy(body), True, hit[0], depth + 1):
+                continue
+            if not _reached_only_holding(ck, cm, fm, r, hit[0], "", depth + 1):
+                return False
+        return True
+    return False
+
+
+def _reached_only_holding(ck, cm, fa: FA, target, mem, layer_prefix, depth=0) -> bool:
+    """every way to `target` takes a branch edge that establishes that the cache holds `mem` for its call (the literals of
+    FA.conditions: nesting, guard clauses, negations, temporaries and conjunctions are normalised away); `layer_prefix`:
+    how the cache is named in this function ('' inside the cache, 'self._memory_cache.' in the backend)"""
+    try:
+        conds = fa.conditions(target)
+    except (AnalysisError, RecursionError):
+        return False
+    if not conds:
+        return False
+    memo = {}
+
+    def lit_ok(t, p):
+        if (t, p) not in memo:
+            txt = t.replace(layer_prefix, "self.") if layer_prefix else t
+            try:
+                memo[(t, p)] = _holds_same_memento(ck, cm, ast.parse(txt, mode="eval").body, p, mem, depth)
+            except SyntaxError:
+                memo[(t, p)] = False
+        return memo[(t, p)]
+    return all(any(lit_ok(t, p) for (t, p) in c) for c in conds)
+
+
+def check_cache_fill_only_for_held_memento(ck, cm: CacheModel, R):
+    """read_result of the backend is handed a memento by its caller -- possibly one obtained before the call was forgotten
+    or memoized again (data objects are never removed, so its result still loads).  Putting that into the cache would bring
+    a forgotten call back (is_memoized / get_memento answer from the cache) or replace the current memento by a superseded
+    one: the loaded result is put into the cache only where the cache has been found to hold that very memento."""
+    rr = FA(ck, BACKEND_BASE + ".read_result")
+    ck.need(len(rr.fi.params) >= 2, "StorageBackendBase.read_result(memento) signature changed")
+    mem = rr.fi.params[1]
+    _n, sites = _layer_application_nodes(ck, rr, "put", "_memory_cache", _no_cache)
+    calls = list({id(c): c for c in [c for (c, _a, _k) in sites] + _field_calls(rr, "_memory_cache", "put")}.values())
+    for c in calls:
+        ok = _reached_only_holding(ck, cm, rr, c, mem, "self._memory_cache.")
+        ck.ob(R, rr.key(None, "fill-only-held-memento"), ok,
+              "the loaded result is cached only where the cache holds that very memento for the call" if ok else
+              "read_result puts the result it loaded into the cache under whatever memento it was handed, without having established that the "
+              "cache currently holds that memento for the call: reading through a memento obtained before the call was forgotten (or memoized "
+              "again) makes the forgotten call memoized again / brings the superseded memento and value back", rr.where(c))
 
 
 def _cache_key_canon(ck, cm, key_expr) -> str:
@@ -1044,16 +1359,24 @@ def check_forget_scope(ck, cm: CacheModel):
             return None
         ids = f2.nodes(lk)
         x = f2.expand(e, ids[0]) if ids else e
+
+        def whole(part) -> bool:
+            """the argument IS that part of the path (possibly wrapped: DataSourceKey(..), str(..), cast(T, ..)), not something
+            computed from it (a slice of the basename selects more than the call)"""
+            y = x
+            while isinstance(y, ast.Call) and not y.keywords and y is not part and ((len(y.args) == 1 and A.call_attr(y) in ("str", "DataSourceKey", "fspath")) or (len(y.args) == 2 and A.call_attr(y) == "cast")):
+                y = y.args[-1]
+            return y is part
         hits = [c_ for c_ in ast.walk(x) if isinstance(c_, ast.Call) and A.call_attr(c_) == fn_name and len(c_.args) == 1]
         if len(hits) == 1:
-            return hits[0].args[0]
+            return hits[0].args[0] if whole(hits[0]) else None
         # pathlib: PurePosixPath(P).parent / .name
         attr = "parent" if fn_name == "dirname" else "name"
         ph = [a_ for a_ in ast.walk(x) if isinstance(a_, ast.Attribute) and a_.attr == attr and isinstance(a_.value, ast.Call)
               and A.call_attr(a_.value) in ("PurePosixPath", "PurePath", "Path", "PosixPath") and len(a_.value.args) == 1 and not a_.value.keywords]
         if len(ph) == 1:
-            return ph[0].value.args[0]
-        for nm in [n_ for n_ in ast.walk(x) if isinstance(n_, ast.Name)]:
+            return ph[0].value.args[0] if whole(ph[0]) else None
+        for nm in [n_ for n_ in ast.walk(x) if isinstance(n_, ast.Name) and whole(n_)]:
             for d_ in (f2.df.reaching(ids[0], nm.id) if ids else []):
                 st_ = d_.stmt if d_.stmt is not None else (f2.cfg.node(d_.node).ast if d_.node >= 0 else None)
                 if isinstance(st_, ast.Assign) and len(st_.targets) == 1 and isinstance(st_.targets[0], ast.Tuple) and len(st_.targets[0].elts) == 2 \
@@ -1122,11 +1445,13 @@ def check_forget_scope(ck, cm: CacheModel):
         okm = bool(mdn) and fa.cfg.must_pass(mdn, fa.cfg.exit)
         ck.ob(R, fa.key(None, "metadata-source"), okm, "metadata source %s on every path" % name if okm else
               "%s does not reach self._metadata_source.%s on every normal path" % (name, name), fa.where())
-        ccn, cc = _layer_application_nodes(ck, fa, name, "_memory_cache", _no_cache)
+        no_cache = _through_properties(ck, fa.fi.cls, _no_cache)
+        ccn, cc = _layer_application_nodes(ck, fa, name, "_memory_cache", no_cache)
         # a path may skip the cache only on a branch edge that says there is no cache
-        okc = bool(ccn) and fa.cfg.exit not in fa.cfg.reach([fa.cfg.entry], removed=ccn, edge_ok=branch_filter(fa, _no_cache))
+        okc = bool(ccn) and fa.cfg.exit not in fa.cfg.reach([fa.cfg.entry], removed=ccn, edge_ok=branch_filter(fa, no_cache))
         ck.ob(R, fa.key(None, "cache"), okc, "cache %s whenever a cache exists" % name if okc else
               "%s can finish without self._memory_cache.%s although a cache exists: forgotten entries stay served from memory" % (name, name), fa.where())
+        _check_cache_let_go_first(ck, R, fa, name)
         # arguments forwarded unchanged
         seen_sites = set()
         for (c, args_, kws_) in md + cc:
@@ -1393,13 +1718,28 @@ def check_cache_coherence(ck, cm):
     # the put is applied to the cache by whatever dispatches it (plain call, bound method, methodcaller, a null-object
     # property, a loop over the layers): a path may finish without it only on a branch edge that says "no cache" or
     # "read-only" (whatever the nesting, the polarity of the test or a temporary holding the flag)
-    def excuse(t, p):
+    def excuse0(t, p):
         return _no_cache(t, p) or (p and t == "self.read_only")
+    excuse = _through_properties(ck, fa.fi.cls, excuse0)
     pn, psites = _layer_application_nodes(ck, fa, "put", "_memory_cache", excuse)
     edge_ok = branch_filter(fa, excuse)
     ok = bool(pn) and fa.cfg.exit not in fa.cfg.reach([fa.cfg.entry], removed=pn, edge_ok=edge_ok)
     ck.ob(R, fa.key(None, "write-through"), ok, "memoize writes through to the cache on every writable path" if ok else
           "memoize can store without updating the memory cache: a stale cached value outlives the new one", fa.where())
+    # ... and only once the store has accepted the memento: a cache that is filled first keeps claiming the call is memoized
+    # when the store's write fails (listings and other processes say it is not; the result is never written again)
+    fx = FA(ck, fa.fi, exc_mode="all")
+    px, _ps = _layer_application_nodes(ck, fx, "put", "_memory_cache", excuse)
+    sx, _ss = _layer_application_nodes(ck, fx, "put_memento", "_metadata_source", None)
+    if px and sx:
+        # ways on which the store's write has not completed normally: around it, or out of it through an exception edge
+        unfinished = fx.cfg.reach([fx.cfg.entry], edge_ok=lambda s_, d_, l_: not (s_ in sx and l_ != "exc"))
+        early = [i for i in px if i in unfinished]
+        oke = not early
+        ck.ob(R, fa.key(None, "write-through-after-store"), oke, "the cache is filled only after the store has accepted the memento" if oke else
+              "memoize can put the result into the memory cache before (or although) self._metadata_source.put_memento has not completed: when the "
+              "store's write fails the cache keeps answering that the call is memoized while the store does not have it",
+              fa.where(fx.cfg.node(early[0]).ast if early else None))
     for (c, args_, kws_) in psites:
         b_ = _bind(ast.Call(func=c.func, args=list(args_), keywords=list(kws_)), cm.insert.params)
         hv = b_.get("has_result")
@@ -2843,6 +3183,164 @@ def check_side_tables(ck, cm: CacheModel, R):
 
 
 
+STORAGE_MODULES = ("storage_base", "storage_filesystem", "storage_memory", "storage")
+_ONE_PASS_TYPES = ("Iterable", "Iterator", "Generator", "AsyncIterable", "AsyncIterator")
+_NOT_CONSUMING = ("isinstance", "len", "id", "type", "bool", "hasattr", "callable", "repr", "cast")
+
+
+def _only_iterable(annotation) -> bool:
+    """the annotation promises no more than "can be iterated": Iterable[..] / Iterator[..] / Generator[..], bare or
+    qualified, possibly Optional"""
+    t = (annotation or "").replace(" ", "")
+    while t.startswith("Optional[") or t.startswith("typing.Optional["):
+        t = t[t.index("[") + 1:-1]
+    head = t.split("[")[0].split(".")[-1]
+    return head in _ONE_PASS_TYPES
+
+
+def check_iterable_single_pass(ck, R):
+    """A parameter of the storage layer that is only promised to be iterable (annotated Iterable / Iterator / Generator) may
+    be a generator: it can be gone through ONCE.  A second consuming use that is reachable from a first one sees an empty
+    sequence -- is_all_memoized then asks the store about no call at all and answers True.  A consuming use is: the
+    iterable of a for loop / comprehension, an argument of a call (other than isinstance / len / ...), an operand of `in`,
+    `yield from`, unpacking, or handing it out (return / yield).  `p = list(p)` (or tuple / sorted, under the same or
+    another name) re-binds: uses of the materialised sequence do not count.  A plain alias `q = p` is followed."""
+    ck.rule(R, "a parameter of the storage layer that is only promised to be Iterable is gone through at most once on every path "
+               "(or materialised first)", 1)
+    seen = 0
+    for mod in STORAGE_MODULES:
+        try:
+            module = ck.repo.module(mod)
+        except (AnalysisError, KeyError):
+            continue
+        for fi in module.all_funcs():
+            ps = [p_ for p_ in fi.params if _only_iterable(fi.param_annotation(p_))]
+            if not ps or fi.node is None:
+                continue
+            fa = FA(ck, fi)
+            for p_ in ps:
+                seen += 1
+                bad = _second_pass(fa, p_)
+                ok = bad is None
+                ck.ob(R, fa.key(None, "single-pass:" + p_), ok,
+                      "`%s` (only promised to be iterable) is gone through at most once on every path" % p_ if ok else
+                      "`%s` is annotated %s, so it may be a generator, yet `%s` goes through it again after `%s` did: the second pass sees nothing "
+                      "(a query over the calls then asks about no call at all and answers as if all were memoized) -- materialise it first "
+                      "(`%s = list(%s)`)" % (p_, fi.param_annotation(p_), A.short(bad[1], 50), A.short(bad[0], 50), p_, p_),
+                      fa.where(bad[1] if bad is not None else None))
+    ck.need(seen >= 1, "no Iterable-annotated parameter found in the storage layer (anchor lost)")
+
+
+def _second_pass(fa: FA, param):
+    """(statement of a first consuming use, statement of a later one reachable from it) or None"""
+    def raw(name_node, nid, depth=0) -> bool:
+        """may the name hold the parameter's own (un-materialised) iterable at CFG node nid?"""
+        for d in fa.df.reaching(nid, name_node.id):
+            if d.kind == "param" and d.name == param:
+                return True
+            if d.kind == "assign" and isinstance(d.value, ast.Name) and depth < 3 and d.node >= 0 and d.value.id != name_node.id and raw(d.value, d.node, depth + 1):
+                return True
+        return False
+
+    def alias_names(name, nid, depth=0):
+        out = {name}
+        for d in fa.df.reaching(nid, name):
+            if d.kind == "assign" and isinstance(d.value, ast.Name) and depth < 3 and d.node >= 0 and d.value.id != name:
+                out |= alias_names(d.value.id, d.node, depth + 1)
+        return out
+
+    cfg_ = fa.cfg
+    memo_r = {}
+
+    def unmaterialised_way(n, i) -> bool:
+        """is there a way from the entry to node i on which the name still holds the un-materialised iterable: no assignment of
+        something else to it (or to the name it is an alias of) on the way, and no branch edge taken that says it is a list /
+        tuple / ... (`isinstance(p, (list, tuple))` true: such a value can be gone through again)"""
+        names = frozenset(alias_names(n.id, i))
+        if names not in memo_r:
+            kills = set()
+            for (nid, ds) in fa.df.gen.items():
+                for d in ds:
+                    if d.name in names and not (d.kind == "assign" and isinstance(d.value, ast.Name) and d.value.id in names):
+                        kills.add(nid)
+            concrete = branch_filter(fa, lambda t, p: p and any(t.startswith("isinstance(%s, " % x) for x in names))
+            r = cfg_.reach([cfg_.entry], removed=kills, edge_ok=concrete)
+            memo_r[names] = (r, kills, concrete)
+        (r, kills, concrete) = memo_r[names]
+        if i in r:
+            return True
+        return i in kills and any(s_ in r and concrete(s_, i, l_) for (s_, l_) in cfg_.pred[i])
+
+    uses = []       # (name node, CFG ids, repeated?, loop whose iterable it is)
+    for n in A.walk_body(fa.node):
+        if not (isinstance(n, ast.Name) and isinstance(n.ctx, ast.Load)):
+            continue
+        ids = fa.nodes(n)
+        if not ids or not any(raw(n, i) and unmaterialised_way(n, i) for i in ids):
+            continue
+        par = fa.pm.get(n)
+        if isinstance(par, ast.Starred):
+            par = fa.pm.get(par)
+        own_loop, consuming, repeated = None, False, False
+        if isinstance(par, (ast.For, ast.AsyncFor)) and par.iter is n:
+            consuming, own_loop = True, par
+        elif isinstance(par, ast.comprehension) and par.iter is n:
+            consuming = True
+        elif isinstance(par, ast.Call) and par.func is not n:
+            f = par.func
+            d_ = A.dotted(f) or ""
+            # printing / logging / formatting shows the object, it does not go through it
+            shown = d_.split(".")[0] in ("log", "logger", "logging", "warnings") or d_ == "print" or (isinstance(f, ast.Attribute) and f.attr == "format")
+            consuming = not (isinstance(f, ast.Name) and f.id in _NOT_CONSUMING) and not shown
+        elif isinstance(par, ast.keyword):
+            consuming = True
+        elif isinstance(par, ast.Compare) and n in par.comparators and any(isinstance(o, (ast.In, ast.NotIn)) for o in par.ops):
+            consuming = True
+        elif isinstance(par, (ast.YieldFrom, ast.Yield, ast.Return)):
+            consuming = True
+        elif isinstance(par, ast.Assign) and par.value is n and any(isinstance(t, (ast.Tuple, ast.List)) for t in par.targets):
+            consuming = True
+        if not consuming:
+            continue
+        # evaluated once per element of something else: not the first iterable of a comprehension, or inside a lambda
+        x = n
+        while x is not None and not isinstance(x, ast.stmt):
+            up = fa.pm.get(x)
+            if isinstance(up, ast.Lambda):
+                repeated = True
+            if isinstance(up, (ast.ListComp, ast.SetComp, ast.GeneratorExp, ast.DictComp)):
+                first = up.generators[0].iter
+                if not fa.inside(n, first):
+                    repeated = True
+            x = up
+        uses.append((n, ids, repeated, own_loop))
+    for (n, ids, repeated, own_loop) in uses:
+        if repeated:
+            return (fa.stmt_of(n) or n, fa.stmt_of(n) or n)
+    cfg = fa.cfg
+    for (n1, ids1, _r, loop1) in uses:
+        for i in ids1:
+            def edge_ok(s_, d_, l_, i=i, loop1=loop1):
+                # the iterable of a for loop is evaluated when the loop is entered, not per iteration
+                if loop1 is not None and d_ == i and s_ != i:
+                    a_ = cfg.node(s_).ast
+                    if s_ == i or (a_ is not None and a_ is not loop1 and fa.inside(a_, loop1)):
+                        return False
+                return True
+            r = cfg.reach([i], edge_ok=edge_ok, include_start=False)
+            for (n2, ids2, _r2, _l2) in uses:
+                if n2 is n1:
+                    if i in r:
+                        return (fa.stmt_of(n1) or n1, fa.stmt_of(n1) or n1)
+                    continue
+                if any(j in r or j == i for j in ids2):
+                    # two uses in one statement / a later use reachable from this one
+                    if all(j == i for j in ids2) and n2.lineno * 10000 + n2.col_offset < n1.lineno * 10000 + n1.col_offset:
+                        continue
+                    return (fa.stmt_of(n1) or n1, fa.stmt_of(n2) or n2)
+    return None
+
+
 def check(ck):
     from .memo import check_new_memo_tables
     ck.run(check_metadata_marker_reserved, ck, "C05.R4")
@@ -2859,7 +3357,9 @@ def check(ck):
     ck.run(check_delete_enumerates_versions, ck, "C05.R2")
     ck.run(check_metadata_single_form, ck, "C05.R4")
     ck.run(check_cache_reads_own_key, ck, cm, "C05.R4")
+    ck.run(check_cache_fill_only_for_held_memento, ck, cm, "C05.R4")
     ck.run(check_queries_effect_free, ck, "C05.R3")
     ck.run(check_cache_coherence, ck, cm)
     ck.run(check_side_tables, ck, cm, "C05.R9")
+    ck.run(check_iterable_single_pass, ck, "C05.R10")
     ck.run(check_path_scheme, ck)
